@@ -17,7 +17,7 @@ import numpy as np
 HASH_SEEDS = {"quick": ["0", "1", "4242", "random"],
               "thorough": ["0", "1", "2", "3", "17", "4242", "random"]}
 SIZES = {"quick": dict(n_gen=220, bench_seeds=3, n_traj=40, steps=150),
-         "thorough": dict(n_gen=5000, bench_seeds=30, n_traj=900, steps=400)}
+         "thorough": dict(n_gen=30000, bench_seeds=30, n_traj=4000, steps=400)}
 
 
 # ----------------------------------------------------------------------
